@@ -99,6 +99,17 @@ def oracle(prop, run):
             not_ready.setdefault(r[4], []).append(int(r[0]))
 
     if prop in ("C01", "C04"):
+        # "the worker's configured capacity" is what the topology file says, not what the loaded object claims
+        for pi, (pj, pc) in enumerate(zip(world["workers"], case["pools"])):
+            for wi, (wj, wc) in enumerate(zip(pj["workers"], pc["workers"])):
+                want = sorted((r["name"].split(":")[0], int(r["name"].split(":")[1][2:]), r["quantity"]) for r in wj["resources"])
+                got = sorted((n, i, q) for n, i, q in wc)
+                if want != got:
+                    yield (f"{prop} worker-capacity-differs-from-the-topology-file", {"pool": pi, "worker": wi, "configured": want, "loaded": got})
+            if len(pj["workers"]) != len(pc["workers"]):
+                yield (f"{prop} worker-capacity-differs-from-the-topology-file", {"pool": pi, "workers_configured": len(pj["workers"]), "loaded": len(pc["workers"])})
+        if len(world["workers"]) != len(case["pools"]):
+            yield (f"{prop} worker-capacity-differs-from-the-topology-file", {"pools_configured": len(world["workers"]), "loaded": len(case["pools"])})
         for e in mon:
             if e["ev"] == "place":
                 if not e["ok"]:
@@ -108,6 +119,14 @@ def oracle(prop, run):
             if e["ev"] == "remove" and e["idle"] and e["avail"] != e["capacity"]:
                 yield (f"{prop} idle-worker-not-at-full-capacity", {"event": e})
     if prop == "C02":
+        # whether a node is the join of a conditional is what the workload description says
+        desc_terminal = {(g["name"], n["name"]): bool(n.get("terminal", False)) for g in world["workload"]["graphs"] for n in g["graph"]}
+        for t, evs in starts.items():
+            tk = tasks.get(t)
+            if tk is not None:
+                key = (tk["graph"].split("@")[0], tk["name"])
+                for e in evs:
+                    e["terminal"] = desc_terminal.get(key, e["terminal"])
         for t, evs in starts.items():
             if len(evs) > 1:
                 yield ("C02 task-started-twice", {"task": t, "times": [e["time"] for e in evs]})
@@ -180,6 +199,10 @@ def oracle(prop, run):
                     if not waits:
                         yield ("C03 start-delayed-without-reason", {"event": e})
     if prop == "C05":
+        lost = sorted({e["t"] for e in mon if e["ev"] in ("release", "transition") and str(e["t"]).startswith("?")})
+        if lost:
+            # the simulator released a task that no task graph of the workload contains: no policy will ever be offered it
+            yield ("C05 released-task-unknown-to-the-workload", {"tasks": lost[:5]})
         if obs["err"] not in (None, "Watchdog"):
             msg = str(obs.get("exc") or "")
             multi = any(t["terminal"] and sum(1 for p in t["parents"] if tasks[p]["state"] != "CANCELLED") >= 2 for t in tasks.values())
